@@ -1,6 +1,8 @@
 // UNIT parser — src/span.rs, src/text.rs, src/parser/{token_stream(Token),block_parser,mod,section,metadata,text_block,step}.rs
 // Every executable function below is extracted from /repo at run time (see tools/vgen.py).
+#![feature(pattern)]
 #![allow(unused_imports, unused_macros, dead_code)]
+#![verifier::allow(undeclared_external_trait)]
 #![verifier::allow(autoderive_clone_without_spec)]
 use vstd::prelude::*;
 use vstd::string::StringSliceAdditionalSpecFns;
@@ -40,6 +42,18 @@ pub assume_specification<I>[ <str as core::ops::Index<I>>::index ](s: &str, inde
 
 // (A3) std::slice::from_ref views one element as a one-element slice
 pub assume_specification<T>[ core::slice::from_ref ](x: &T) -> (r: &[T]) ensures r@ == seq![*x];
+
+// (A5) total, panic-free std string functions whose RESULT IS LEFT UNSPECIFIED: code that starts using them is
+//      still accepted by the verifier, and any contract that depends on their result then fails instead of
+//      the whole unit being rejected as "unsupported"
+pub assume_specification<'a>[ str::trim ](s: &'a str) -> (r: &'a str);
+pub assume_specification<'a>[ str::trim_start ](s: &'a str) -> (r: &'a str);
+pub assume_specification<'a>[ str::trim_end ](s: &'a str) -> (r: &'a str);
+pub assume_specification<'a, P: core::str::pattern::Pattern>[ str::trim_start_matches::<P> ](s: &'a str, p: P) -> (r: &'a str);
+pub assume_specification<'a, P: core::str::pattern::Pattern>[ str::starts_with::<P> ](s: &'a str, p: P) -> (r: bool);
+pub assume_specification<'a, P: core::str::pattern::Pattern>[ str::ends_with::<P> ](s: &'a str, p: P) -> (r: bool) where for<'b> <P as core::str::pattern::Pattern>::Searcher<'b>: core::str::pattern::ReverseSearcher<'b>;
+pub assume_specification<'a, P: core::str::pattern::Pattern>[ str::contains::<P> ](s: &'a str, p: P) -> (r: bool);
+pub assume_specification<'a, P: core::str::pattern::Pattern>[ str::strip_prefix::<P> ](s: &'a str, p: P) -> (r: Option<&'a str>);
 
 /// bytes of the input of the parse in progress (uninterpreted: proofs hold for every input)
 pub uninterp spec fn the_input() -> Seq<u8>;
@@ -521,15 +535,9 @@ derive Clone, Copy
 } // mod quantity
 
 verus! {
-// TRUSTED stand-in for the bitflags!-generated `Extensions` (src/lib.rs): an opaque set of flags.
-#[derive(Clone, Copy)]
-pub struct Extensions { bits: u32 }
-impl Extensions {
-    pub closed spec fn b(&self) -> u32 { self.bits }
-    pub open spec fn has(&self, other: Extensions) -> bool { self.b() & other.b() == other.b() }
-    #[verifier::external_body]
-    pub fn contains(&self, other: Self) -> (r: bool) ensures r == self.has(other) { self.bits & other.bits == other.bits }
-}
+// X8: TRUSTED stand-in for the bitflags!-generated `Extensions`; constants copied from src/lib.rs each run
+/*@ bitflags src/lib.rs Extensions
+@*/
 } // verus!
 
 pub mod parser_model {
@@ -537,9 +545,9 @@ use vstd::prelude::*;
 use crate::*;
 use crate::{located::Located, quantity::Value, span::Span, text::Text};
 verus! {
-// TRUSTED stand-in for the bitflags!-generated `Modifiers` (src/parser/model.rs)
-#[derive(Clone, Copy)]
-pub struct Modifiers { bits: u16 }
+// X8: TRUSTED stand-in for the bitflags!-generated `Modifiers`; constants copied from src/parser/model.rs each run
+/*@ bitflags src/parser/model.rs Modifiers
+@*/
 /*@ type src/parser/model.rs Ingredient
 derive
 @*/
@@ -593,6 +601,23 @@ pub assume_specification<'a, T, P: FnMut(&'a T) -> bool>[ <core::slice::Iter<'a,
             && forall|i: int| #![trigger vals(old(it).remaining())[i]] 0 <= i < r.unwrap() ==> pred.ensures((&vals(old(it).remaining())[i],), false),
         r.is_none() ==> forall|i: int| #![trigger vals(old(it).remaining())[i]] 0 <= i < old(it).remaining().len() ==> pred.ensures((&vals(old(it).remaining())[i],), false),
 ;
+// TRUSTED (X4 targets): `s.iter().all(p)` / `s.iter().any(p)` on a slice. vstd has no specification for them and
+// one cannot be attached (they are overridden in `impl Iterator for slice::Iter`), so the listed call sites are
+// rewritten to these wrappers, which perform the same operation.
+#[verifier::external_body]
+pub fn slice_all<T, P: Fn(&T) -> bool>(s: &[T], pred: P) -> (r: bool)
+    requires forall|x: &T| #[trigger] pred.requires((x,)),
+    ensures
+        r ==> forall|i: int| 0 <= i < s@.len() ==> pred.ensures((&#[trigger] s@[i],), true),
+        !r ==> exists|i: int| 0 <= i < s@.len() && pred.ensures((&#[trigger] s@[i],), false),
+{ s.iter().all(pred) }
+#[verifier::external_body]
+pub fn slice_any<T, P: Fn(&T) -> bool>(s: &[T], pred: P) -> (r: bool)
+    requires forall|x: &T| #[trigger] pred.requires((x,)),
+    ensures
+        !r ==> forall|i: int| 0 <= i < s@.len() ==> pred.ensures((&#[trigger] s@[i],), false),
+        r ==> exists|i: int| 0 <= i < s@.len() && pred.ensures((&#[trigger] s@[i],), true),
+{ s.iter().any(pred) }
 pub proof fn lemma_vals_as_ref<T>(s: Seq<T>) ensures vals(s.as_ref()) == s { assert(vals(s.as_ref()) =~= s); }
 } // verus!
 
@@ -1054,5 +1079,76 @@ closure 2 `TokenKind` ret `b: bool`:
 @*/
 } // verus!
 } // mod text_block
+
+pub mod step {
+use vstd::prelude::*;
+use crate::*;
+use crate::block_parser::BlockParser;
+use crate::parser_ev::{Event, BlockKind};
+verus! {
+/*@ fn src/parser/step.rs parse_step stub
+spec:
+    requires old(bp).wf(), old(bp).cur() == 0,
+    ensures final(bp).wf(), final(bp).same(old(bp)), final(bp).cur() == final(bp).toks().len(),
+@*/
+} // verus!
+} // mod step
+
+/*@ macro src/parser/mod.rs mt
+@*/
+pub mod parser_fns {
+use vstd::prelude::*;
+use crate::*;
+use crate::block_parser::BlockParser;
+use crate::parser_ev::Event;
+use crate::section::section;
+use crate::metadata::metadata_entry;
+use crate::text_block::parse_text_block;
+use crate::step::parse_step;
+verus! {
+/// C17: tokens that never separate or join blocks: whitespace, comments, newlines
+pub open spec fn empty_kind(k: TokenKind) -> bool { k == TokenKind::Whitespace || k == TokenKind::BlockComment || k == TokenKind::LineComment || k == TokenKind::Newline }
+/*@ fn src/parser/mod.rs is_empty_token
+tags C03 C17
+ret r
+spec:
+    ensures r == empty_kind(tok.kind)    // [C17] blank-line classification ignores exactly spaces, comments and newlines
+@*/
+/*@ fn src/parser/mod.rs is_single_line_marker
+tags C03 C17
+ret r
+spec:
+    ensures r == (first.is_some() && (first.unwrap().kind == TokenKind::MetadataStart || first.unwrap().kind == TokenKind::Eq))
+@*/
+/*@ fn src/parser/mod.rs parse_multiline_block
+tags C03 C05 C17
+hoist 0
+rewrite `bp.tokens().iter().all(` => `crate::slice_all(bp.tokens(), `
+spec:
+    requires old(bp).wf(), old(bp).cur() == 0,   // [C05] the whole block is still unparsed
+        old(bp).toks().last().kind != TokenKind::Newline,    // [C03] block splitter trims trailing newlines
+    ensures final(bp).wf(), final(bp).same(old(bp)),
+        final(bp).cur() == final(bp).toks().len(),    // [C03] [C05] the whole block is consumed (finish() must not panic)
+closure 0 `&Token` ret `b: bool`:
+        ensures b == (t.kind != TokenKind::Newline)
+closure 1 `&Token` ret `b: bool`:
+        ensures b == empty_kind(t.kind)
+@*/
+/*@ fn src/parser/mod.rs parse_block
+tags C03 C05 C02
+inline filter 0
+spec:
+    requires old(block).wf(), old(block).cur() == 0,
+        old(block).toks().last().kind != TokenKind::Newline,
+    ensures final(block).wf(), final(block).same(old(block)),
+        final(block).cur() == final(block).toks().len(),    // [C03] [C05] the whole block is consumed (finish() must not panic)
+before `let meta_or_section = match block.peek() {`:
+    let ghost pre = *block;
+closure 0 `&mut BlockParser<'_, '_>` ret `o: Option<Event<'_>>`:
+        requires *old(bp) == pre, pre.wf(), pre.cur() == 0
+        ensures final(bp).wf(), final(bp).same(&pre), o.is_some() ==> final(bp).cur() == final(bp).toks().len()
+@*/
+} // verus!
+} // mod parser_fns
 
 fn main() {}
